@@ -31,6 +31,10 @@ pub uninterp spec fn dbg_bytes<T: ?Sized>(t: &T) -> Seq<u8>;      // `{:?}`
 #[verifier::external_body] pub broadcast proof fn axiom_disp_u64(n: &u64) ensures #[trigger] disp_bytes(n) == dec_digits(*n as nat) { }
 #[verifier::external_body] pub broadcast proof fn axiom_disp_usize(n: &usize) ensures #[trigger] disp_bytes(n) == dec_digits(*n as nat) { }
 #[verifier::external_body] pub broadcast proof fn axiom_hex_usize(n: &usize) ensures #[trigger] hex_bytes(n) == hex_lower(*n as nat) { }
+pub uninterp spec fn version_is_11(v: &Version) -> bool;
+#[verifier::external_body] pub broadcast proof fn axiom_dbg_http11(v: &Version) ensures version_is_11(v) ==> #[trigger] dbg_bytes(v) == str_bytes("HTTP/1.1"@) { }
+#[verifier::external_body] pub broadcast proof fn axiom_disp_url(u: &Url) ensures #[trigger] disp_bytes(u) == str_bytes(url_display(u)) { }
+pub broadcast group group_fmt_http { axiom_dbg_http11, axiom_disp_url }
 pub broadcast group group_fmt { axiom_empty_str_bytes, axiom_disp_str, axiom_disp_string, axiom_disp_u16, axiom_disp_u64, axiom_disp_usize, axiom_hex_usize }
 /// the bytes of the ASCII literals the repo writes (string literal views are opaque to the solver: revealed here once)
 #[verifier::external_body] pub proof fn lemma_crlf_lit() ensures str_bytes("\r\n"@) == seq![13u8, 10u8] { }
